@@ -280,8 +280,60 @@ def run_case(ctx, h, nedits, lines=None, reals=None):
         ctx.sample({'case': h, 'edits': log[:12]})
 
 
+def construction_pass(ctx):
+    """hierarchies given at *construction* (`EClass(name, superclass=(…))`), in every order — a supertype listed before its
+    own subtype, diamonds, repeated ancestors: Python cannot linearise every such order and the metaclass has to fall back;
+    whatever it does, an instance has every feature of every ancestor, is an instance of each of them, and of nothing else"""
+    from pyecore import ecore as E
+    from pyecore.valuecontainer import EcoreUtils
+    for k in range(60 if ctx.quick() else 1500):
+        rng = common.sub_rng(ctx.seed, 'C12', 'construction', k)
+        classes, anc = [], []
+        n = rng.randint(2, 6)
+        for i in range(n):
+            sup = rng.sample(range(i), rng.randint(0, min(i, 3))) if i else []
+            rng.shuffle(sup)
+            try:
+                c = E.EClass(f'K{i}', superclass=tuple(classes[j] for j in sup))
+            except Exception as e:
+                ctx.violate({'clause': 'construction-raised'}, f'EClass(K{i}, superclass=K{sup}) raised {type(e).__name__}: {e}',
+                            {'construction': k})
+                return
+            c.eStructuralFeatures.append(E.EAttribute(f'a{i}', E.EInt, default_value=i))
+            classes.append(c)
+            a = set(sup)
+            for j in sup:
+                a |= anc[j]
+            anc.append(a)
+        extra = E.EClass('Unrelated')
+        ctx.evaluations += 1
+        ctx.nontriv(('construction', k))
+        for i, c in enumerate(classes):
+            try:
+                x = c()
+            except Exception as e:
+                ctx.violate({'clause': 'construction-raised'}, f'instantiating K{i} raised {type(e).__name__}: {e}', {'construction': k})
+                return
+            for j in range(n):
+                has = j == i or j in anc[i]
+                try:
+                    got = getattr(x, f'a{j}')
+                    seen = got == j
+                except AttributeError:
+                    seen = False
+                inst = isinstance(x, classes[j].python_class) and EcoreUtils.isinstance(x, classes[j])
+                if seen != has or inst != has:
+                    ctx.violate({'clause': 'construction'}, f'K{i} built with its supertypes at construction: feature of K{j} visible={seen}, '
+                                f'instance of K{j}={inst}, ancestor={has}', {'construction': k})
+                    return
+            if {classes.index(t) for t in c.eAllSuperTypes()} != anc[i] or EcoreUtils.isinstance(x, extra):
+                ctx.violate({'clause': 'construction'}, f'K{i}: eAllSuperTypes() differ from the declared ancestors', {'construction': k})
+                return
+
+
 def run(ctx):
     common.use_repo()
+    construction_pass(ctx)
     n = 800 if ctx.quick() else 6000
     ned = 14 if ctx.quick() else 20
     ctx.rule = (f'{n} edit sequences (<= {ned}) over graphs of 2-4 dynamic classes: add/remove attribute or reference, add/remove '
